@@ -192,6 +192,17 @@ def run_case(case, rec, mon=None):
         fs = _probes(case)
         use_np = case.get("np_scalar", False)
         int_types = [int, np.int64, np.int32, np.int16, np.uint16, np.int8, np.uint8]
+        if name != "octave":
+            # 0 Hz is in the domain, however it is written
+            for zero in (0, 0.0, np.float64(0), np.int64(0), np.array(0.0)):
+                rec.count("zero_hertz_spellings")
+                try:
+                    sz = sc.hertz_to_scale(zero)
+                    back = float(sc.scale_to_hertz(sz))
+                    if not abs(back) <= RT:
+                        rec.violation({"what": "%s: scale_to_hertz(hertz_to_scale(%r)) = %r" % (name, zero, back), "check": "roundtrip_fsf", "cls": name, "params": params, "arg": 0.0, "case": case})
+                except Exception as e:
+                    rec.violation({"what": "%s.hertz_to_scale(%r) raised %r" % (name, zero, e), "check": "raise", "cls": name, "params": params, "arg": 0.0, "case": case})
 
         def as_int(k, v):
             """v (whole) in the k-th integer type that can hold it"""
